@@ -3,19 +3,21 @@
 (* once and at most one format simulation per lineage, track/compile only last.                                         *)
 EXTENDS Transforms
 CONSTANTS MaxMods, MaxCalls
-VARIABLES mods, hist, ncalls, lastEff
-vars == <<mods, hist, ncalls, lastEff>>
-Init == mods = <<Original>> /\ hist = <<>> /\ ncalls = 0 /\ lastEff = <<>>
+\* last = the last event (<<"apply", m, kind>> / <<"call", m, ran>>); the full history is NOT part of the state (every
+\* property below speaks about the last step only), which keeps the reachable set small enough for deeper bounds.
+VARIABLES mods, last, ncalls, lastEff
+vars == <<mods, last, ncalls, lastEff>>
+Init == mods = <<Original>> /\ last = <<"init">> /\ ncalls = 0 /\ lastEff = <<>>
 Allowed(m, k) ==      \* the chains of the quantifier
   LET b == mods[m].backends  S == {b[i] : i \in 1 .. Len(b)} IN
   /\ S \cap LastKinds = {}                      \* track / compile are documented to come last
   /\ (k = "us" => "us" \notin S)
   /\ (k \in QKinds => S \cap QKinds = {})
 Apply == /\ Len(mods) < MaxMods
-         /\ \E m \in 1 .. Len(mods), k \in Kinds : Allowed(m, k) /\ mods' = ApplyTo(mods, m, k) /\ hist' = Append(hist, <<"apply", m, k>>)
+         /\ \E m \in 1 .. Len(mods), k \in Kinds : Allowed(m, k) /\ mods' = ApplyTo(mods, m, k) /\ last' = <<"apply", m, k>>
          /\ UNCHANGED <<ncalls, lastEff>>
 Call == /\ ncalls < MaxCalls
-        /\ \E m \in 1 .. Len(mods) : LET r == CallOn(mods, m) IN mods' = r.mods /\ hist' = Append(hist, <<"call", m, r.ran>>) /\ lastEff' = r.eff
+        /\ \E m \in 1 .. Len(mods) : LET r == CallOn(mods, m) IN mods' = r.mods /\ last' = <<"call", m, r.ran>> /\ lastEff' = r.eff
         /\ ncalls' = ncalls + 1
 Next == Apply \/ Call
 Spec == Init /\ [][Next]_vars
@@ -32,10 +34,14 @@ ASSUME CanonicityInductive == \A b \in AllLists : \A k \in Kinds : (Canonical(b)
 OriginalUntouched == mods[1] = [Original EXCEPT !.calls = mods[1].calls]
 PipelineCanonical == \A m \in 1 .. Len(mods) : LET b == mods[m].backends IN EachOnce(b) /\ UsBeforeQ(b) /\ LastIsLast(b)
 \* the pipeline in effect at any call is the module's own backend list (never a stale one inherited from its source)
-EffectiveIsOwn == (hist # <<>> /\ hist[Len(hist)][1] = "call") => lastEff = mods[hist[Len(hist)][2]].backends
+EffectiveIsOwn == last[1] = "call" => lastEff = mods[last[2]].backends
 \* same set of transforms => same pipeline, whatever the order they were applied in
 OrderIndependent == \A a, b \in 1 .. Len(mods) : Applied(mods, a) = Applied(mods, b) /\ (\A k \in Applied(mods, a) : k \notin QKinds \/ TRUE) =>
    (Applied(mods, a) \cap QKinds = Applied(mods, b) \cap QKinds => mods[a].backends = mods[b].backends)
-\* a repeated call does not re-run the backends (action property)
-NoRerunOnRepeat == [][\A m \in 1 .. Len(mods) : (hist' # hist /\ hist'[Len(hist')][1] = "call" /\ hist'[Len(hist')][2] = m /\ ~mods[m].rerun /\ mods[m].backends # <<>>) => hist'[Len(hist')][3] = <<>>]_vars
+\* a repeated call does not re-run the backends unless another module was re-traced in between (action property)
+NoRerunOnRepeat == [][\A m \in 1 .. Len(mods) : (ncalls' = ncalls + 1 /\ last'[2] = m /\ ~mods[m].rerun /\ mods[m].live /\ mods[m].backends # <<>>) => last'[3] = <<>>]_vars
+\* whatever a call re-runs -- first trace or re-trace after a global reset -- is the module's own pipeline
+RerunIsOwn == (last[1] = "call" /\ last[3] # <<>>) => last[3] = mods[last[2]].backends
+\* compiled code is only ever alive for modules that were traced with their own list
+LiveIsOwn == \A m \in 1 .. Len(mods) : mods[m].live => mods[m].cached = mods[m].backends
 =============================================================================
